@@ -608,6 +608,7 @@ fn alloc_faults(g: &mut Grid) {
     let results: Vec<(usize, String, i32)> = {
         let next = std::sync::atomic::AtomicUsize::new(0);
         let out = std::sync::Mutex::new(vec![]);
+        vrt::crash::idle(); // waiting on child processes is not a hang
         std::thread::scope(|s| {
             for _ in 0..16 {
                 s.spawn(|| loop {
